@@ -30,7 +30,19 @@ DefaultSegs == <<
   [stem |-> "ppt",             num |-> -1, exts |-> <<>>],
   [stem |-> "p",               num |-> -1, exts |-> <<"bin">>],
   [stem |-> "q",               num |-> -1, exts |-> <<"bin">>],
-  [stem |-> "r",               num |-> -1, exts |-> <<"BIN">>]
+  [stem |-> "r",               num |-> -1, exts |-> <<"BIN">>],
+  \* 13..: file names for the ACCESSOR family only (MC_PackUri.ExtraNames): index zero, zero-padded digits (field pad = number of
+  \* leading zeros in the spelling; num is the VALUE), the decimal digit boundaries, a long stem, the largest 32-bit index
+  [stem |-> "image",           num |-> 0,   exts |-> <<"png">>],
+  [stem |-> "slide",           num |-> 1,   exts |-> <<"xml">>,  pad |-> 2],
+  [stem |-> "image",           num |-> 7,   exts |-> <<"jpeg">>, pad |-> 1],
+  [stem |-> "slide",           num |-> 9,   exts |-> <<"xml">>],
+  [stem |-> "slide",           num |-> 10,  exts |-> <<"xml">>],
+  [stem |-> "slide",           num |-> 100, exts |-> <<"xml">>],
+  [stem |-> "slideLayout",     num |-> 11,  exts |-> <<"xml">>],
+  [stem |-> "media",           num |-> 0,   exts |-> <<"mp4">>,  pad |-> 1],
+  [stem |-> "chart",           num |-> 2147483647, exts |-> <<"xml">>],
+  [stem |-> "notesSlide",      num |-> 12,  exts |-> <<"xml">>]
 >>
 
 SegIds(n) == 1..n
